@@ -62,6 +62,9 @@ class EOFRotator(EOF):
         rtol: float = 1e-8,
         compute: bool = True,
     ):
+        if not isinstance(n_modes, int) or n_modes < 1:
+            raise ValueError("n_modes must be an integer greater than 0")
+
         if max_iter is None:
             max_iter = 1000 if compute else 100
 
